@@ -220,9 +220,32 @@ def run_case(case: dict) -> CaseResult:
                 ledger(f"op {i} supply", 0)
             elif o == "rl":
                 await reconnect_round(i, op)
+            elif o == "client":
+                await client_round(i, op)
         if manager is not None:
             await manager.async_close()
             ledger("final close", 0)
+
+    async def client_round(i: int, op: dict):
+        """A full APIClient.connect() on a name that needs mDNS, through the manager under test: whatever the outcome
+        (resolved, nothing found, resolver hangs until the 30 s limit cancels it, TCP refused, caller cancels) the
+        ownership ledger must balance when the call is over."""
+        env.tcp_script = [("refuse", D)] if op.get("tcp") == "refuse" else [("ok", 2 * D)]
+        cli = make_client(env, address=op.get("address", "kitchen.local"))
+        cli._params.zeroconf_manager = manager
+        t = env.spawn(f"client{i}", cli.connect(login=True))
+        if op.get("cancel_after") is not None:
+            await asyncio.sleep(op["cancel_after"] / 64)
+            if not t.done():
+                env.cancel(f"client{i}")
+        await asyncio.wait([t])
+        r = env.results.get(f"client{i}")
+        if r and r[0] == "exc" and not isinstance(r[1], (APIConnectionError, asyncio.CancelledError)):
+            viol.append(V(f"c20:connect:raised:{type(r[1]).__name__}", f"op {i}: {r[1]!r}"))
+        await cli.disconnect(force=True)
+        await asyncio.sleep(2 / 64)
+        ledger(f"op {i} client connect ({op})", 1 if model["inst"] == "created" else 0)
+        classes.add("client_connect")
 
     async def reconnect_round(i: int, op: dict):
         from aioesphomeapi.reconnect_logic import ReconnectLogic
@@ -290,6 +313,7 @@ def run_case(case: dict) -> CaseResult:
 
 
 # ------------------------------------------------------------------ generators
+MDNS_HANG = {"outcome": "hang"}
 MDNS_OUT = [
     {"outcome": "ok", "v4": ["10.1.0.1"]}, {"outcome": "ok", "v6": ["fd00::aa"]}, {"outcome": "ok", "v4": ["10.1.0.1", "10.1.0.2"], "v6": ["fd00::aa", "fe80::5%2"]},
     {"outcome": "none"}, {"outcome": "raise"}, {"outcome": "ok", "v4": [], "v6": []},
@@ -311,9 +335,12 @@ def _case(draw, tier):
             ops.append({"op": "close"})
         elif r == 8:
             ops.append({"op": "supply", "kind": draw(st.sampled_from(["async", "sync"]))})
+        elif draw(st.booleans()):
+            ops.append({"op": "client", "tcp": draw(st.sampled_from(["refuse", "ok"])), "address": draw(st.sampled_from(["kitchen.local", "kitchen", "bedroom.local", "dev.example.com"])),
+                        "cancel_after": draw(st.sampled_from([None, None, 0, 1, 2, 64 * 10]))})
         else:
             ops.append({"op": "rl", "tcp": draw(st.sampled_from(["refuse", "ok"])), "pass_instance": draw(st.booleans()), "wait": draw(st.sampled_from([1, 3])), "address": draw(st.sampled_from(["kitchen.local", "kitchen", "10.0.0.5"]))})
-    mdns = {n: draw(st.sampled_from(MDNS_OUT)) for n in ("kitchen", "bedroom", "porch")}
+    mdns = {n: draw(st.sampled_from(MDNS_OUT + ([MDNS_HANG] if any(o["op"] == "client" for o in ops) else []))) for n in ("kitchen", "bedroom", "porch")}
     dns = {h: draw(st.sampled_from(DNS_OUT)) for h in LOCALS + FQDNS}
     return {"manager": draw(st.sampled_from(["none", "empty", "empty", "supplied_async", "supplied_sync"])), "mdns": mdns, "dns": dns, "ops": ops}
 
@@ -348,6 +375,11 @@ def enumerated(tier):
             for last in ([{"op": "close"}], [res_, {"op": "close"}], [{"op": "rl", "tcp": "refuse", "pass_instance": False, "wait": 2}], [{"op": "rl", "tcp": "ok", "pass_instance": True, "wait": 2}]):
                 for mo in (MDNS_OUT[0], MDNS_OUT[3], MDNS_OUT[4]):
                     yield {"manager": "empty", "mdns": {"kitchen": mo}, "dns": {"kitchen.local": DNS_OUT[0]}, "ops": first + [{"op": "supply", "kind": kind}] + last}
+    for mgr in managers[1:]:
+        for mo in (MDNS_OUT[0], MDNS_OUT[3], MDNS_OUT[4], MDNS_HANG):
+            for tcp in ("refuse", "ok"):
+                for ca in (None, 1, 64 * 10):
+                    yield {"manager": mgr, "mdns": {"kitchen": mo}, "dns": {"kitchen.local": DNS_OUT[0] if tcp == "ok" else DNS_OUT[3]}, "ops": [{"op": "client", "tcp": tcp, "address": "kitchen.local", "cancel_after": ca}, res_]}
     for mgr in managers[1:]:
         for tcp in ("refuse", "ok"):
             for pi in (False, True):
